@@ -1,0 +1,167 @@
+//go:build verif
+
+// Verification hooks (build tag "verif"): read-only structural views of the
+// tables for the external monitors in /verif, plus a RIB reset between
+// histories. Nothing here changes behaviour of existing code.
+
+package table
+
+import (
+	enc "github.com/named-data/ndnd/std/encoding"
+)
+
+// VerifPitCsInfo is a structural snapshot of a PIT-CS name tree.
+type VerifPitCsInfo struct {
+	Nodes         int // nodes excluding the root
+	PitEntries    int // PIT entries found by walking the tree
+	PitNotQueued  int // PIT entries that are not in the expiry queue (can never be reaped)
+	CsEntries     int // CS entries found by walking the tree
+	DeadNodes     int // nodes whose subtree holds neither a PIT nor a CS entry
+	NPitEntries   int // the table's own PIT counter
+	NCsEntries    int // the table's own CS counter
+	TokenMapSize  int
+	CsMapSize     int
+	ExpiryQueue   int
+	LruQueue      int // -1 when the policy is not LRU
+	LruLocations  int
+	CachedNames   []enc.Name
+	PitEntryNames []enc.Name
+}
+
+// VerifPitCsStats walks the PIT-CS tree (must be called from the goroutine that owns the table).
+func VerifPitCsStats(t PitCsTable) VerifPitCsInfo {
+	p := t.(*PitCsTree)
+	info := VerifPitCsInfo{
+		NPitEntries: p.nPitEntries, NCsEntries: p.nCsEntries,
+		TokenMapSize: len(p.pitTokenMap), CsMapSize: len(p.csMap), ExpiryQueue: p.pitExpiryQueue.Len(),
+		LruQueue: -1,
+	}
+	if lru, ok := p.csReplacement.(*CsLRU); ok {
+		info.LruQueue = lru.queue.Len()
+		info.LruLocations = len(lru.locations)
+	}
+	var walk func(n *pitCsTreeNode, path enc.Name) bool
+	walk = func(n *pitCsTreeNode, path enc.Name) bool {
+		live := false
+		for _, e := range n.pitEntries {
+			info.PitEntries++
+			if e.pqItem == nil {
+				info.PitNotQueued++
+			}
+			info.PitEntryNames = append(info.PitEntryNames, e.encname.Clone())
+			live = true
+		}
+		if n.csEntry != nil {
+			info.CsEntries++
+			info.CachedNames = append(info.CachedNames, path.Clone())
+			live = true
+		}
+		for _, c := range n.children {
+			info.Nodes++
+			var comp enc.Component
+			if c.component != nil {
+				comp = *c.component
+			}
+			if walk(c, append(path[:len(path):len(path)], comp)) {
+				live = true
+			}
+		}
+		if !live && n.parent != nil {
+			info.DeadNodes++
+		}
+		return live
+	}
+	walk(p.root, enc.Name{})
+	return info
+}
+
+// VerifFibInfo is a structural snapshot of a FIB-strategy table.
+type VerifFibInfo struct {
+	Kind string // "nametree" or "hashtable"
+	// name tree
+	Nodes     int // nodes excluding the root
+	DeadNodes int // nodes whose subtree holds neither next hops nor a strategy
+	// hash table
+	M          int
+	RealNames  []enc.Name
+	VirtSize   int
+	VirtNames  int
+	VirtNameMd map[uint64]int
+}
+
+// VerifFibStats inspects a FIB-strategy table under its own read lock.
+func VerifFibStats(f FibStrategy) VerifFibInfo {
+	switch t := f.(type) {
+	case *FibStrategyTree:
+		t.fibStrategyRWMutex.RLock()
+		defer t.fibStrategyRWMutex.RUnlock()
+		info := VerifFibInfo{Kind: "nametree"}
+		var walk func(n *fibStrategyTreeEntry) bool
+		walk = func(n *fibStrategyTreeEntry) bool {
+			live := len(n.nexthops) > 0 || n.strategy != nil
+			for _, c := range n.children {
+				info.Nodes++
+				if walk(c) {
+					live = true
+				}
+			}
+			if !live && n.parent != nil {
+				info.DeadNodes++
+			}
+			return live
+		}
+		walk(t.root)
+		return info
+	case *FibStrategyHashTable:
+		t.fibStrategyRWMutex.RLock()
+		defer t.fibStrategyRWMutex.RUnlock()
+		info := VerifFibInfo{Kind: "hashtable", M: t.m, VirtSize: len(t.virtTable), VirtNames: len(t.virtTableNames), VirtNameMd: map[uint64]int{}}
+		for _, e := range t.realTable {
+			info.RealNames = append(info.RealNames, e.name.Clone())
+		}
+		for k, v := range t.virtTable {
+			info.VirtNameMd[k] = v.md
+		}
+		return info
+	}
+	return VerifFibInfo{Kind: "unknown"}
+}
+
+// VerifRibInfo is a structural snapshot of the RIB tree.
+type VerifRibInfo struct {
+	Nodes     int // nodes excluding the root
+	DeadNodes int // nodes whose subtree holds no route
+	Routes    int
+}
+
+// VerifRibStats walks the RIB (not synchronised: the RIB has no lock of its own).
+func VerifRibStats() VerifRibInfo {
+	info := VerifRibInfo{}
+	var walk func(n *RibEntry) bool
+	walk = func(n *RibEntry) bool {
+		live := len(n.routes) > 0
+		info.Routes += len(n.routes)
+		for c := range n.children {
+			info.Nodes++
+			if walk(c) {
+				live = true
+			}
+		}
+		if !live && n.parent != nil {
+			info.DeadNodes++
+		}
+		return live
+	}
+	walk(&Rib.RibEntry)
+	return info
+}
+
+// VerifResetRib replaces the RIB by an empty one (between histories).
+func VerifResetRib() {
+	Rib = RibTable{RibEntry: RibEntry{children: map[*RibEntry]bool{}}}
+}
+
+// VerifDnlLen returns the number of entries of a dead nonce list and of its expiry queue.
+func VerifDnlLen(d *DeadNonceList) (entries int, queued int) {
+	return len(d.list), d.expirationQueue.Len()
+}
